@@ -752,15 +752,18 @@ pub fn check_main(prop: &str, tier: Tier, seed: u64) -> i32 {
         };
         if v.class == "hang" || v.class == "superlinear" {
             // the verdicts not derived from a counter: confirm twice (a hang with a doubled budget)
+            // (a growth ratio measured while sixteen workers share the memory bus can be three times
+            // what it is on a quiet machine: a `superlinear` verdict needs three quiet reproductions)
+            let need = if v.class == "superlinear" { 3 } else { 2 };
             let mut confirmed = 0;
-            for _ in 0..2 {
+            for _ in 0..need {
                 if let Ok(r) = exec_spec_isolated(&spec, 2) {
                     if r.violations.iter().any(|x| x.class == v.class) {
                         confirmed += 1;
                     }
                 }
             }
-            if confirmed < 2 {
+            if confirmed < need {
                 unconfirmed_slow += 1;
                 continue;
             }
@@ -883,7 +886,7 @@ fn assumptions(prop: &str) -> Vec<&'static str> {
     match prop {
         "C07" => v.push("the reference model is a fresh reader of the same build over a perfect disk: decides purity and agreement, not correctness of decoding"),
         "C08" => v.push("the default-option range of a fresh reader over a perfect disk is taken as the sheet's content"),
-        "C06" => v.push("scaling runs compare the CPU time of one amplified input at 1/4, 1/2 and 1/1 of its generated items (verdict: full size >= 100 ms and more than 10 x the quarter size, confirmed by two isolated replays); the CPU-time watchdog verdict is confirmed by two replays with a doubled budget; proportionality constants: heap <= 64 MiB + 512 x input, I/O events <= 64 x input + 1e5"),
+        "C06" => v.push("scaling runs compare the CPU time of one amplified input at 1/4, 1/2 and 1/1 of its generated items (verdict: full size >= 100 ms and more than 10 x the quarter size, confirmed by three isolated replays after the batch, on a quiet machine); the CPU-time watchdog verdict is confirmed by two replays with a doubled budget; proportionality constants: heap <= 64 MiB + 512 x input, I/O events <= 64 x input + 1e5"),
         _ => {}
     }
     v
